@@ -41,14 +41,18 @@ def c01ParseChunk (s : String) : Option Chunk :=
 
 def c01B (b : Bool) : String := if b then "1" else "0"
 
+/-- ids of one column; `-` when empty (also inside a multi-target line) -/
+def c01Ids (rs : List Row) : String := if rs.isEmpty then "-" else ",".intercalate (rs.map (toString ·.id))
+
 /-- ops of property C01 -/
 def handleC01 : List String → Option String
   | "c01.whole" :: graph :: target :: srcs => do
-    -- whole-run semantics of a harness graph: the rows of `target`
+    -- whole-run semantics of a harness graph: the rows of `target` (several same-kind targets `a,b`
+    -- of one request: their id columns, separated by ` | `)
     let nodes ← (splitList graph ";").mapM c01ParseNode
     let w ← srcs.mapM c01ParseSrc
-    pure <| showExcept showIds
-      (wholeV nodes w >>= fun w' => lookupW w' target)
+    pure <| showExcept (fun cols => " | ".intercalate (cols.map c01Ids))
+      (wholeV nodes w >>= fun w' => mapE (lookupW w') (target.splitOn ","))
   | "c01.law" :: t0 :: t1 :: chunks => do
     -- the property's second sentence evaluated on a yielded chunk sequence
     let t0 ← t0.toInt?; let t1 ← t1.toInt?
